@@ -39,12 +39,33 @@ TRUSTED = [
     "tools/props/c13.py (generators, independent Python reference for row/column), harness/src/bin/pvh_c13.rs "
     "(incl. its scanner of derive(Debug) output), lean/Drv/C13.lean",
 ]
-PARTIAL = []
-READY = False
+PARTIAL = [
+    "the property quantifies over all trees; the theorems quantify over call histories of the locator. That the "
+    "fold of a tree (generated fold + hand-written overrides + look-ahead locator) produces a forward history is a "
+    "hypothesis of linear_eq_spec (Forward), not proved: it is evaluated on the recorded real history of every test "
+    "program (fwd= in the trace answers) and is false for the listed class-keyword shape",
+    "which location the fold stores in which node is not modelled (finding linear-fstring-concat-piece-range is only "
+    "seen by the oracle on node positions)",
+    "offsets between a CR and its LF are outside linear_eq_spec (InDomain); random_eq_spec covers them",
+    "source length < 2^32 assumed (OneIndexed saturation not modelled)",
+    "release-semantics build flavour (dbg = false) is tied to the code in the thorough tier only",
+]
+READY = True
 TECHNIQUE = ("Lean 4 theorems over a hand-written byte-level model of both locators + replay of recorded real call "
              "sequences through the model + independent Python oracle on every node position")
-LEVEL_TEXT = ""
-LEVEL_NOTE = ""
+LEVEL_TEXT = ("Machine-checked Lean 4 theorems, for texts and call histories of every length: the indexed locator "
+              "returns the reference (row, column) on every character-boundary offset; the incremental locator, in "
+              "both build flavours, returns the reference (row, column) at every call of every forward history of "
+              "locate / locate_only / locate_error calls and never panics, hence agrees with the indexed locator; "
+              "locate_only never changes the state; a kernel-checked witness shows the result is wrong (release) or a "
+              "panic (debug) as soon as a history goes backwards, and the full any-order statement is refuted. The "
+              "model is tied to the Rust code on every run by replaying the exact call sequence the real LinearLocator "
+              "performed on each test program and by exhaustive small-scope histories; the real code is additionally "
+              "judged on every node position by an independent Python reference.")
+LEVEL_NOTE = ("Trusted: Lean kernel (axioms propext/Classical.choice/Quot.sound only); fidelity of the hand-written "
+              "locator model as sampled by the correspondence; the fold order is observed, not modelled (Forward is "
+              "checked per recorded history); Rust std contracts (memchr, chars().count(), is_char_boundary); harness, "
+              "hook, generators and the Python reference.")
 RULE = ("request lines sent to the real crates (and, for trace/locseq/spec requests, to the Lean model); distinct = "
         "distinct request line; non-trivial = the program has at least one located node / the text is non-empty")
 
@@ -937,7 +958,8 @@ def streams(ctx):
     reqs = _locseq_requests(L, K) if quick else (_locseq_requests(4, 3) + [r for r in _locseq_requests(5, 2) if len(unhex(r.split()[2])) >= 5])
     out.append(Stream(f"locseq-exhaustive-len<={L}", reqs, kind="exhaustive", exhaustive=True,
                       note=f"all texts of <= {L} symbols over {{LF, CR, a, e-acute, BOM, emoji}} x every forward call history "
-                           f"of <= {K} locate/locate_only calls on in-domain offsets, plus the full chain",
+                           f"of <= {K} locate/locate_only calls{'' if quick else ' (<= 2 for 5-symbol texts)'} on in-domain offsets, "
+                           f"plus the full chain",
                       nontrivial=lambda r: r.split()[2] != "-"))
     reqs = []
     for t in _texts(L):
